@@ -2,7 +2,7 @@
    cong n a b  is  a = b (mod n)  (n | a - b).  The statements are the `..._stmt` definitions of the Proofs files.
    `_partial` = a finite kernel sweep (bound in the statement) of a statement whose full form is kept in ProofsSweep.v. *)
 From Coq Require Import ZArith Znumtheory List.
-From C13 Require Import Model ProofsBase ProofsSqrt ProofsLift ProofsNumTheo ProofsOrder ProofsLogp ProofsPow2 ProofsPk ProofsTS ProofsPrp ProofsPrp1 ProofsAlias ProofsPrimRoot ProofsSweep.
+From C13 Require Import Model ProofsBase ProofsSqrt ProofsLift ProofsNumTheo ProofsOrder ProofsLogp ProofsPow2 ProofsPk ProofsTS ProofsPrp ProofsPrp1 ProofsAlias ProofsPrimRoot ProofsSweep ProofsLambda ProofsExamples.
 Local Open Scope Z_scope.
 
 Theorem C13_powmod_is_power_mod : forall n a e, 0 < n -> 0 <= e -> powmod a e n = a ^ e mod n.   Proof. exact powmod_spec. Qed.
@@ -55,8 +55,12 @@ Theorem C13_prim_root_has_order_phi : Prim_root_order_stmt.          Proof. exac
 Print Assumptions C13_prim_root_has_order_phi.
 Theorem C13_phi_counts_units_partial : Phi_count_stmt.               Proof. exact phi_count_sweep. Qed.
 Print Assumptions C13_phi_counts_units_partial.
-Theorem C13_lambda_is_group_exponent_partial : Lambda_exponent_stmt. Proof. exact lambda_exponent_sweep. Qed.
-Print Assumptions C13_lambda_is_group_exponent_partial.
+Theorem C13_lambda_inv_is_group_exponent_partial : Lambda_inv_exponent_stmt.   Proof. exact lambda_inv_exponent_sweep. Qed.
+Print Assumptions C13_lambda_inv_is_group_exponent_partial.
+Theorem C13_lambda_is_maximal_orbit_on_prime_powers_partial : Lambda_orbit_prime_power_stmt.   Proof. exact lambda_orbit_prime_power_sweep. Qed.
+Print Assumptions C13_lambda_is_maximal_orbit_on_prime_powers_partial.
+Theorem C13_lambda_maximal_orbit_composite_refuted : Lambda_orbit_composite_refuted_stmt.   Proof. exact lambda_orbit_composite_refuted. Qed.
+Print Assumptions C13_lambda_maximal_orbit_composite_refuted.
 Theorem C13_order_is_least_exponent_partial : Order_least_stmt.      Proof. exact order_least_sweep. Qed.
 Print Assumptions C13_order_is_least_exponent_partial.
 Theorem C13_sqrootmodprime_end_to_end_partial : Sqrootmodprime_sweep_stmt.          Proof. exact sqrootmodprime_sweep. Qed.
